@@ -114,6 +114,65 @@ PROPS['C29'] = dict(
                 'shift is the loop invariant over a ghost rename log.',
 )
 
+PROPS['C23'] = dict(
+    units=['k_sid'], level='proof', design_ref='6/C23',
+    technique='CBMC harness contracts on SessionID::operator==, operator!=, same_sender_comp_id, same_target_comp_id, same_side_* extracted from the clang AST (identity string model: '
+              'a CompID is an id, std::string ==/!= are assumed content equality)',
+    text='Identity conjunct only: proof for all CompID values (and for the aliased case a == a) that two session identities compare equal exactly when SenderCompID and TargetCompID are '
+         'both equal, that operator!= is exactly the negation of operator== (the obligation that failed before fix 9eedfd3), and that the four same_*_comp_id cross-checks used by the '
+         'CompID enforcement compare the intended pair. NOT decided by this check: Session::handle_logon (acceptor/initiator logon acceptance, client list, ResetSeqNumFlag, '
+         'HeartBtInt echo) -- a 160-line function over ~35 opaque library/virtual calls that is not under contract yet.',
+    note='logon acceptance conjuncts of C23 are NOT covered; std::string ==/!= assumed; BeginString is deliberately not part of identity equality in the code (stated as the spec here too)',
+    trusted_base=COMMON_TRUST,
+    explanation='SessionID is a struct of three string ids and the cached id string; the cached string is unconstrained, so an implementation comparing it instead of the CompIDs is refuted.',
+)
+
+PROPS['C24'] = dict(
+    units=['k_sched'], level='proof', design_ref='6/C24',
+    technique='CBMC harness contracts on Schedule::test (with Tickval::in_range / is_errorval) extracted from the clang AST, against a window specification written from the property, as a '
+              'one-step lemma over two clock readings at most 60 s apart (virtual clock; Tickval/chrono and gmtime weekday are assumed integer models; cvc5 back end for the 64-bit '
+              'day arithmetic); decode_dow evaluated natively and exhaustively over all strings of up to 3 bytes',
+    text='Daily schedules: proof for every start < end, utc offset within +-14 h and instant 2001..2096 that test() returns exactly "local time of day in [start, end]" whatever the '
+         'previous state. Weekly schedules, one-step lemma (previous state correct at a check at most 60 s earlier => new state correct; window >= 60 s): proved for windows running '
+         'from an earlier to a later weekday and not ending in the last minute of a day. REFUTED on the pinned tree and listed as known findings (each reproduced on the real code under '
+         'a virtual clock): windows that begin and end on the same weekday never activate; windows that wrap over the week end are left a day late; windows ending in the last minute '
+         'of their end day are left late. decode_dow: exhaustive native evaluation (not a proof) of all 16 843 009 strings of length 0..3 against the table in the property. '
+         'NOT decided: Configuration::create_schedule (XML attribute handling), the session-level use of the result.',
+    note='Tickval (std::chrono) and the weekday of gmtime_r are ASSUMED integer models; the weekly claim is the inductive step only (the first check after start-up inside a window is outside it); '
+         'decode_dow is exhaustive-native over its stated finite domain, labelled as such',
+    trusted_base=COMMON_TRUST,
+    explanation='The specification window is computed from the same quotient/remainder terms the code computes, so the solver relates code and spec without a second 64-bit division.',
+)
+
+PROPS['C28'] = dict(
+    units=['k_log'], level='proof', design_ref='6/C28',
+    technique='CBMC harness contracts on Logger::is_loggable, Logger::send and Logger::enqueue extracted from the clang AST; the lock-free queue is an assumed model whose try_push '
+              'nondeterministically accepts or refuses',
+    text='Sequential conjuncts only: proof for every level mask, level, line and queue answer that a line at a disabled level is never submitted (and send reports success), a line at an '
+         'enabled level is submitted exactly once with its text, level and value, and send/enqueue return true exactly when the queue accepted the line (the obligation that failed before fix '
+         '33c45da). NOT decided: every conjunct about interleavings (exactly once / per-producer order and consecutive sequence numbers under 1-8 concurrent producers), stop() '
+         'returning only after all accepted lines are written (consumer loop Logger::operator() against stop(): a two-thread protocol), process_logline / flush formatting.',
+    note='interleaving conjuncts of C28 are schedules and outside sequential contracts; f8_concurrent_queue::try_push, LogElement constructor, thread id are ASSUMED models',
+    trusted_base=COMMON_TRUST,
+    explanation='The ghost log of the queue model records each try_push call and its answer, so "submitted exactly once" and "reports success iff accepted" are postconditions over that log.',
+)
+
+PROPS['C31'] = dict(
+    units=['k_timer'], level='proof', design_ref='6/C31',
+    technique='CBMC dfcc loop contract on the loop of Timer<Session>::operator() (every iteration checked from an arbitrary queue state), harness contracts on Timer::schedule, Timer::clear '
+              '(loop contract) and TimerEvent::operator<, extracted from the clang AST of the instantiation the session uses; std::priority_queue, Tickval/clock and the callback are assumed models '
+              'that carry the obligations as assertions at the moment of each event',
+    text='Proof, for every queue state, clock reading and callback result, that in one iteration of the timer thread a callback runs only for the event that was the queue maximum, only after it '
+         'has been removed, never before its due time and never for an unset (0) due time; that a repeating event whose callback returned true is re-queued exactly once, unchanged except for '
+         'its due time = this run + its interval, and is not re-queued otherwise; that schedule(e, ms) queues exactly e with due time now + ms and interval ms; that clear() leaves no pending '
+         'event and returns the number removed (for every queue size, loop contract); that operator< orders by later due time, so the queue maximum (assumed std::priority_queue semantics) '
+         'is the earliest due event. NOT decided: real-time lateness, that the timer thread is scheduled at all, and every race between clear()/schedule() from other threads and an '
+         'iteration in progress (the spin lock is dropped by the extraction; interleavings are outside sequential contracts).',
+    note='std::priority_queue, Tickval (std::chrono), the callback and the cancellation token are ASSUMED models; concurrency conjunct of "after clearing no pending event runs" (clear racing a running callback) is not decided',
+    trusted_base=COMMON_TRUST,
+    explanation='The loop body is verified from a havocked state under a loop contract, so the obligations hold for every iteration of every run; ghost per-iteration flags tie the callback, the pop and the push together.',
+)
+
 # ---------------------------------------------------------------- native replayers
 import os
 from vlib import replay as _rp
@@ -210,6 +269,34 @@ def _replay_k_rot(oid, inputs, trace, wd):
                                  'ASan + _GLIBCXX_ASSERTIONS' % which, rc=rc, output=o[-1500:])], reproduced=rc != 0)
 
 
+def _replay_k_sid(oid, inputs, trace, wd):
+    R = _rp.astdump.REPO
+    lib = R + '/runtime/.libs' if os.path.exists(R + '/runtime/.libs/libfix8.so') else '/repo/runtime/.libs'
+    # SessionID::make_id (compiled, not under test here) comes from the repository's built libfix8.so; the comparisons are header-inline and compiled from the working tree
+    exe = _rp.build_native(os.path.join(_rp.VERIF, 'replay', 'k_sid.cpp'), os.path.join(wd, 'replay_k_sid'), extra=['-L' + lib, '-lfix8', '-Wl,-rpath,' + lib])
+    rc, o = _rp.run_native(exe, ['search'])
+    return dict(steps=[dict(kind='native contract-checking search: every pair of identities over 3 values per CompID (incl. values containing "->"), both BeginStrings', rc=rc, output=o[-1500:])],
+                reproduced=rc != 0)
+
+
+def _replay_k_sched(oid, inputs, trace, wd):
+    exe = _rp.build_native(os.path.join(_rp.VERIF, 'replay', 'k_sched.cpp'), os.path.join(wd, 'replay_k_sched'))
+    which = ('daily' if 'daily' in oid else 'same_day' if 'same_day' in oid else 'wrap' if 'wrap' in oid else 'forward_late_end' if 'last_minute' in oid else 'forward')
+    rc, o = _rp.run_native(exe, ['search', which])
+    return dict(steps=[dict(kind='native history under a virtual clock (%s windows): checked every 30 s over three weeks, 6 utc offsets, against the window specification' % which,
+                            rc=rc, output=o[-1500:])], reproduced=rc == 1)
+
+
+def _replay_k_log(oid, inputs, trace, wd):
+    R = _rp.astdump.REPO
+    exe = _rp.build_native(os.path.join(_rp.VERIF, 'replay', 'k_log.cpp'), os.path.join(wd, 'replay_k_log'), extra=[R + '/runtime/logger.cpp', R + '/runtime/f8utils.cpp', '-lz'], timeout=1200)
+    rc, o = _rp.run_native(exe, ['search', os.path.join(wd, 'logscratch')], timeout=600)
+    return dict(steps=[dict(kind='native contract-checking search: real FileLogger, every level mask x every level, return values and file content', rc=rc, output=o[-1500:])], reproduced=rc == 1)
+
+
+replayers['k_sched'] = _replay_k_sched
+replayers['k_log'] = _replay_k_log
+replayers['k_sid'] = _replay_k_sid
 replayers['k_rot'] = _replay_k_rot
 replayers['k_rot_fp'] = _replay_k_rot
 replayers['k_tab'] = _replay_k_tab
